@@ -552,19 +552,30 @@ class Registry:
         self.writers = writer_contracts()
         self.readers = reader_contracts()
         self.missing = []
-        for name, c in self.writers.items():
+        # contracts are anchored on the PUBLIC functions; a private helper that no longer exists under its name is
+        # not an alarm: whatever replaced it is verified inside its callers (inlined), whose contracts are unchanged
+        self.absent_private = []
+        for name, c in list(self.writers.items()):
             fn = getattr(W, name, None)
             if fn is None:
-                self.missing.append(f"kio.serial.writers.{name}")
+                if name.startswith("_"):
+                    self.absent_private.append(f"kio.serial.writers.{name}")
+                    del self.writers[name]
+                else:
+                    self.missing.append(f"kio.serial.writers.{name}")
                 continue
             self.by_id[id(fn)] = (fn, c)
         etf = getattr(W, "write_empty_tagged_fields", None)
         if etf is not None:
             self.by_id[id(etf)] = (etf, EmptyTaggedContract())
-        for name, c in self.readers.items():
+        for name, c in list(self.readers.items()):
             fn = getattr(R, name, None)
             if fn is None:
-                self.missing.append(f"kio.serial.readers.{name}")
+                if name.startswith("_"):
+                    self.absent_private.append(f"kio.serial.readers.{name}")
+                    del self.readers[name]
+                else:
+                    self.missing.append(f"kio.serial.readers.{name}")
                 continue
             self.by_id[id(fn)] = (fn, c)
         if hasattr(R, "read_exact"):
@@ -612,6 +623,9 @@ class Registry:
         if kind is None:
             return None
         item = cells.get("item_writer") or cells.get("item_reader")
+        if item is None:
+            cand = [v for v in cells.values() if callable(v) and not isinstance(v, type)]
+            item = cand[0] if len(cand) == 1 else None
         if item is None:
             return None
         ic = self.lookup(item)
